@@ -1,7 +1,7 @@
 (* Pool/LegacyThm.v — the statements of Properties/C41.v that are not literally a lemma of the
    Legacy* files (small wrappers, witness histories evaluated by vm_compute), so that the property
    file contains statements and [exact] only. *)
-From GV Require Import Lib.Tactics Pool.Legacy Pool.LegacyProofs Pool.LegacyInv Pool.LegacyInv2 Pool.LegacyInv3 Pool.LegacyInv4 Pool.LegacyInv5 Pool.LegacyInv6 Pool.LegacyInv7 Pool.LegacyInv8 Pool.LegacyInv9 Pool.LegacyInv10.
+From GV Require Import Lib.Tactics Pool.Legacy Pool.LegacyProofs Pool.LegacyInv Pool.LegacyInv2 Pool.LegacyInv3 Pool.LegacyInv4 Pool.LegacyInv5 Pool.LegacyInv6 Pool.LegacyInv7 Pool.LegacyInv8 Pool.LegacyInv9 Pool.LegacyInv10 Pool.LegacyInv11.
 Local Open Scope N_scope.
 
 Lemma C41_promote_appends_stmt : forall l t s,
@@ -143,3 +143,26 @@ Proof.
   destruct (l_txs l) as [|x r] eqn:El; [discriminate|].
   destruct (last_contig r _ x G1) as [t' [H1 H2]]. rewrite Hlast in H1. inversion H1; subst t'. rewrite G2. lia.
 Qed.
+
+(* gapless + pendingNonces + no executable queue head, over histories without head changes *)
+Lemma C41_no_executable_head_histories_partial_stmt : forall c tip g h, Forall (op_ok c) h ->
+  let st := run_history (pool_init c tip g) h in
+  forall a x, in_opt x (p_queue st a) -> pn_get a st < t_nonce x.
+Proof.
+  intros c tip g h H st a x Hx.
+  exact (proj2 (proj2 (history_SGX h (pool_init c tip g) (conj (SInv_init c tip g) (conj (GInv_init c tip g) (NX_init c tip g))) H)) a x Hx).
+Qed.
+
+(* a dropped block of the (unconstrained) fake chain that contains a tx above the state nonce *)
+Definition tX := mkTx 20 0 3 21000 14 5 0 1 21000.
+Definition bx1 : block := mkBlock 1 0 1 1000000 0 [0; 0; 0] [big; big; big] [tX].
+Definition bx2 : block := mkBlock 2 0 1 1000000 0 [0; 0; 0] [big; big; big] [].
+Definition chainx := [g0; bx1; bx2].
+Definition h_head : list op := [OpAdd [tA]; OpAdd [mkTx 21 0 1 21000 11 5 0 1 21000]; OpAdd [tC]; OpReset chainx g0 bx1; OpReset chainx bx1 bx2].
+Lemma C41_no_executable_head_after_reset_refuted_stmt :
+  exists h, let st := run_history (pool_init cfg_roomy 1 g0) h in
+    option_map (fun l => map t_nonce (l_txs l)) (p_pending st 0) = Some [0; 1; 2] /\
+    pn_get 0 st = 3 /\
+    option_map (fun l => map t_nonce (l_txs l)) (p_queue st 0) = Some [3] /\
+    ch_nonce (p_chain st) 0 = 0.
+Proof. exists h_head. vm_compute. repeat split. Qed.
